@@ -475,7 +475,7 @@ func c14EvalBuilder(w *mc.W, cas c14Bld) {
 func runC14(c *mc.Ctx) {
 	c13SelfTest()
 	c.Note("hook_fastReduction", hookFastReduction != nil)
-	c.Rule("encoding: 2 keys x 10 (P,M) x all multisets of size <= 3 over the collision-aware item alphabet, plus N in {252,253,65535,65536} and P in {0..33}: Bytes/NBytes/PBytes/NPBytes against the reference Golomb-Rice bit string and CompactSize, FromBytes/FromNBytes round trips with identical answers; fastReduction (hook) on all combinations of 32-bit halves over 9 boundary values and all 4-bit-half placements against math/bits.Mul64; basic and mempool block filters over all blocks of a coinbase + <= 2 transactions with <= 2 inputs over 3 outpoints and <= 2 outputs over 4 scripts; all builder op chains of depth <= 4 (5 thorough) over a 17-op menu from 4 constructors against a record model with an error latch; non-trivial = non-empty encodings / carries / latched chains")
+	c.Rule("encoding: 2 keys x 12 (P,M) x all multisets of size <= 3 over the collision-aware item alphabet, plus N in {252,253,65535,65536} and P in {0..33}: Bytes/NBytes/PBytes/NPBytes against the reference Golomb-Rice bit string and CompactSize, FromBytes/FromNBytes round trips with identical answers; fastReduction (hook) on all combinations of 32-bit halves over 9 boundary values and all 4-bit-half placements against math/bits.Mul64; basic and mempool block filters over all blocks of a coinbase + <= 2 transactions with <= 2 inputs over 3 outpoints and <= 2 outputs over 4 scripts; all builder op chains of depth <= 4 (5 thorough) over a 17-op menu from 4 constructors against a record model with an error latch; non-trivial = non-empty encodings / carries / latched chains")
 	c.Assume("reference SipHash-2-4, 128-bit multiply, Golomb-Rice bit string and CompactSize are correct; wire block hashing trusted")
 
 	// 1. encodings
